@@ -4,9 +4,16 @@ C19 — Dalitz-plot-decomposition angles satisfy their geometry and identities.
 All theorems are about `Ampverif.Gen.C19.*` (`Gen/C19.lean`, `Gen/C19Table.lean`), which are
 REGENERATED from `/repo/src/ampform/kinematics/angles.py` on every run: `theta_i_j`,
 `thetaHat_i_j`, `zeta_i_j_k` are the returned expressions, `cos…` their arccos arguments,
-`thetaAngle`/`thetaHatAngle`/`zetaAngle` dispatch on the index tuple (errors as an enum).
-The library's symbols are the masses `m_0 … m_3` and the pair masses `m_12 m_13 m_23`
-(`σ₁ = m_23²`, `σ₂ = m_13²`, `σ₃ = m_12²`).
+`thetaAngle`/`thetaHatAngle`/`zetaAngle` (and `…Cos`, `…Kind`) dispatch on the index tuple
+(exceptions as an enum). The library's symbols are the masses `m_0 … m_3` and the pair masses
+`m_12 m_13 m_23` (`σ₁ = m_23²`, `σ₂ = m_13²`, `σ₃ = m_12²`).
+
+Contents: case tables (error domain, zero/sign pattern, aliases) · `|cos| ≤ 1` wherever the
+library's `Kibble ≤ 0` · every cosine as a covariant Gram ratio and as the cosine between two
+three-momenta in the relevant rest frame · `θ_ij + θ_ji = π` · the ζ sum rule (all orderings)
+on the interior of the Dalitz region · events give physical points · non-vacuity examples.
+Helper lemmas: `Lemmas/C19Basic`, `C19Vec`, `C19SumRule` (generic), `C19Cos`, `C19Sum` (per
+regenerated definition).
 -/
 import Ampverif.Gen.C19Table
 import Ampverif.Lemmas.C19Cos
